@@ -7,6 +7,8 @@
      Y <src>                      the symbols (name|TYPE|lags|leads) -> O:...;... | EP:<class> | U
      B <src> <opts> <0|1> <conv>  build_def, conv in default code wrap count empty
                                   -> O:<hex text>|<final converter state> | EP: | EC: | EF:<class> (fill failed) | U
+     X <text-hex>                 exec_M (the class tuple a generated text denotes)
+                                  -> O:<endo>|<exo>|<params>|<errors>|<LAGS>|<LEADS>|<block-hex> | N
      R <hex>                      py_repr_str -> <hex>
      I <prefix-hex> <text-hex>    textwrap.indent -> <hex>
      F <tpl-hex> k=<v-hex> ...    format_named -> O:<hex> | E:<class> | U
@@ -121,6 +123,11 @@ let answer (line : string) : unit =
             | "broken" -> unit_conv conv_broken
             | "count" -> let (st, r) = build_def conv_count O syms opts hints in fin (int_of_nat st, r)
             | _ -> failwith "conv"))
+  | ["X"; h] ->
+    print_endline (match exec_M (unhex h) with
+                   | None -> "N"
+                   | Some t -> "O:" ^ String.concat "|" [names_s t.t_endogenous; names_s t.t_exogenous; names_s t.t_parameters;
+                                                          names_s t.t_errors; z_s t.t_lags; z_s t.t_leads; hex t.t_block])
   | ["R"; h] -> print_endline (hex (py_repr_str (unhex h)))
   | ["I"; p; t] -> print_endline (hex (indent (unhex p) (unhex t)))
   | "F" :: t :: kvs ->
